@@ -1,12 +1,29 @@
 #!/usr/bin/env python3
 """Apply every /verif/seeded/<id>/patch.diff to /repo in turn (git apply ... ; git checkout -- .), run all registered quick checks against
-it, run the demo, and refresh meta.json['detected_by_at_head'].  Prints the matrix."""
-import json, pathlib, subprocess, sys
+it (16 at a time), run the demo, and refresh meta.json['detected_by_at_head'].  Prints the matrix.   usage: tools/rerun_seeds.py [seed-id ...]"""
+import json, os, pathlib, subprocess, sys, tempfile, shutil
+from concurrent.futures import ThreadPoolExecutor
 ROOT = pathlib.Path('/verif/seeded')
+PROPS = [c['property_id'] for c in json.loads(pathlib.Path('/verif/MANIFEST.json').read_text())['checks']]
+
+
+def run_checks():
+    tmp = tempfile.mkdtemp(prefix='fsa-ev-')
+    env = dict(os.environ, FSA_EVIDENCE_DIR=tmp)
+
+    def one(pid):
+        return pid, subprocess.run(['/verif/check', pid, '--repo', '/repo'], capture_output=True, text=True, env=env).returncode
+    with ThreadPoolExecutor(16) as ex:
+        res = dict(ex.map(one, PROPS))
+    shutil.rmtree(tmp, ignore_errors=True)
+    return ' '.join(f'{k}(exit {v})' for k, v in sorted(res.items()) if v != 0) or 'none'
+
+
 rows = []
+only = set(sys.argv[1:])
 for d in sorted(ROOT.iterdir()):
     patch = d / 'patch.diff'
-    if not patch.exists():
+    if not patch.exists() or (only and d.name not in only):
         continue
     st = subprocess.run(['git', '-C', '/repo', 'status', '--porcelain', '--untracked-files=no'], capture_output=True, text=True).stdout.strip()
     assert not st, f'/repo not clean: {st}'
@@ -15,10 +32,12 @@ for d in sorted(ROOT.iterdir()):
         rows.append((d.name, 'patch does not apply at HEAD', '', ''))
         continue
     try:
-        out = subprocess.run(['python3', '/verif/tools/try_seed.py', '/repo'], capture_output=True, text=True).stdout
-        fired = [l for l in out.splitlines() if l.startswith('FIRED:')][0][len('FIRED: '):]
-        demo = subprocess.run(['/venv/bin/python', str(d / 'demo.py')], capture_output=True, text=True, env={'PYTHONPATH': '/repo/src', 'PATH': '/usr/bin:/bin'}, timeout=600)
-        demo_res = 'fails' if demo.returncode != 0 else 'passes'
+        fired = run_checks()
+        try:
+            demo = subprocess.run(['/venv/bin/python', str(d / 'demo.py')], capture_output=True, text=True, env={'PYTHONPATH': '/repo/src', 'PATH': '/usr/bin:/bin'}, timeout=600)
+            demo_res = 'fails' if demo.returncode != 0 else 'passes'
+        except subprocess.TimeoutExpired:
+            demo_res = 'fails (timeout)'
     finally:
         subprocess.run(['git', '-C', '/repo', 'checkout', '--', '.'], check=True)
     meta = json.loads((d / 'meta.json').read_text())
@@ -28,4 +47,5 @@ for d in sorted(ROOT.iterdir()):
     (d / 'meta.json').write_text(json.dumps(meta, indent=1) + '\n')
     rows.append((d.name, meta['property_broken'], demo_res, fired))
     print(d.name, meta['property_broken'], 'demo', demo_res, '|', fired, flush=True)
-json.dump(rows, open('/verif/seeded/matrix.json', 'w'), indent=1)
+if not only:
+    json.dump(rows, open('/verif/seeded/matrix.json', 'w'), indent=1)
